@@ -8,11 +8,15 @@ from checks import langcommon as lc
 TRUSTED_BASE = [
     "Coq 8.16.1 kernel (coqc)",
     "axioms: none",
-    "extraction ExtrOcamlBasic+ExtrOcamlString; extract/driver_lang.ml ('check' runs the extracted check_program); harness/cpp/drv_prog.cpp (noexec)",
+    "extraction ExtrOcamlBasic+ExtrOcamlString; extract/driver_lang.ml ('check' runs the extracted check_program, 'ccheck' the extracted "
+    "ccheck_program); harness/cpp/drv_prog.cpp (noexec)",
     "the reference checker (Lang/Typing.v) covers the classical core: declared-type compatibility in initialisers, assignments, element assignments, arguments "
-    "and returns (same type or int->long), final variables, void misuse, return rules, use before declaration, redeclaration, condition types; the "
-    "class-related rules (final fields, access control, static/abstract instantiation, this/super in static context, null, @quantum, @shots) are checked "
-    "against the rule text itself by violating/repaired program pairs in several positions, not against a Coq model (partial)",
+    "and returns (same type or int->long), final variables, void misuse, return rules, use before declaration, redeclaration, condition types; its soundness "
+    "against the reference interpreter is a theorem (Soundness.checked_programs_never_get_stuck). The class-level checker (Lang/ClassTyping.v: subclass "
+    "assignability, null, member access control by declaring class, overload choice by least conversion cost on static types, constructors and super(...), "
+    "final fields once per constructor, static context, abstract/static classes) is a definition compared with the analyser on mutated class programs; no "
+    "theorem is stated about it (partial). @quantum/@shots rules and the rules in positions the generators do not reach are checked by violating/repaired "
+    "program pairs only",
 ]
 
 SCALARS = lg.SCALARS
@@ -389,9 +393,9 @@ def class_pairs():
     return P
 
 
-def run_checker(sxs):
+def run_checker(sxs, cmd="check"):
     exe = vlib.ocaml_engine("lang")
-    inp = "".join("check %s\n" % s for s in sxs)
+    inp = "".join("%s %s\n" % (cmd, s) for s in sxs)
     out = subprocess.run([exe], input=inp, capture_output=True, text=True, timeout=900).stdout.split("\n")
     out = [l for l in out if l]
     if len(out) != len(sxs):
@@ -447,6 +451,45 @@ def run(chk):
                              "implementation": {k2: c.get(k2) for k2 in ("status", "cat", "line", "col", "msg")},
                              "how": "echo 'check <model_input>' | build/ml/lang/lang.exe   vs   /repo's bloch on the source"},
                        "%s: reference checker %ss, analyser %s (%s)" % (desc[:80], v, "accepts" if impl_accept else "rejects", (c.get("msg") or "")[:80]))
+    # class programs with one class-rule-directed edit: accept/reject against the class-level reference checker
+    from checks import classmut as cmut, objgen as og
+    ccases = []
+    tries = 0
+    ncm = 300 if quick else 5000
+    while len(ccases) < ncm and tries < 10 * ncm:
+        tries += 1
+        cf, cc = og.ObjGen(rng).program()
+        if rng.random() < 0.08:
+            ccases.append((cf, cc, "unchanged"))
+            continue
+        m = cmut.class_mutate(rng, cf, cc)
+        if m is not None:
+            ccases.append(m)
+    csx = [lg.prog_sx(f, c) for f, c, _ in ccases]
+    csrc = [lg.prog_src(f, c) for f, c, _ in ccases]
+    cver = run_checker(csx, "ccheck")
+    cimpl = lc.run_impl(csrc, opts="noexec")
+    ckinds = {}
+    cacc = crej = cdis = 0
+    for (cf, cc, desc), sx, src, v, c in zip(ccases, csx, csrc, cver, cimpl):
+        st = c.get("status")
+        if st in ("signal", "exit", "exception", "unparsable", "timeout"):
+            chk.report("c16-crash", {"source": src, "implementation": c}, "analyser crashed on a mutated class program")
+            continue
+        if st == "error" and c.get("cat") in ("Parse", "Lexical"):
+            continue                       # e.g. 'static class' with instance members is refused by the parser
+        impl_accept = st == "ok"
+        k = desc.split(" ")[0] + ("/accept" if v == "accept" else "/reject")
+        ckinds[k] = ckinds.get(k, 0) + 1
+        cacc += v == "accept"
+        crej += v != "accept"
+        if (v == "accept") != impl_accept:
+            cdis += 1
+            tag = "c16-class-accepted-violation" if impl_accept else "c16-class-rejected-valid"
+            chk.report(tag, {"mutation": desc, "source": src, "model_input": sx, "reference_checker": v,
+                             "implementation": {k2: c.get(k2) for k2 in ("status", "cat", "line", "col", "msg")},
+                             "how": "echo 'ccheck <model_input>' | build/ml/lang/lang.exe   vs   /repo's bloch on the source"},
+                       "%s: class-level reference checker %ss, analyser %s (%s)" % (desc[:80], v, "accepts" if impl_accept else "rejects", (c.get("msg") or "")[:80]))
     # class-related rules: violating / repaired pairs
     pairs = class_pairs()
     bad_res = lc.run_impl([p[2] for p in pairs], opts="noexec")
@@ -460,12 +503,16 @@ def run(chk):
         if g.get("status") != "ok":
             chk.report("c16-rule-overreach", {"rule": rule, "position": pos, "source": good, "implementation": {k: g.get(k) for k in ("status", "cat", "msg")}},
                        "the repaired twin for '%s' (%s) is rejected: %s" % (rule, pos, (g.get("msg") or "")[:100]))
-    chk.cov.update({"programs": len(cases) + 2 * npairs, "mutated_programs": len(cases), "reference_accepts": acc, "reference_rejects": rej,
-                    "mutation_kinds": kinds, "skipped_constant_folding_rejections": folded, "disagreements_checked": dis, "class_rule_pairs": npairs,
+    chk.cov.update({"class_programs_mutated": len(ccases), "class_reference_accepts": cacc, "class_reference_rejects": crej,
+                    "class_mutation_kinds": ckinds, "class_disagreements": cdis,
+                    "programs": len(cases) + 2 * npairs + len(ccases), "mutated_programs": len(cases), "reference_accepts": acc, "reference_rejects": rej,
+                    "mutation_kinds": kinds, "skipped_constant_folding_rejections": folded, "disagreements_checked": dis + cdis, "class_rule_pairs": npairs,
                     "rule": "valid classical programs with one rule-directed edit: an expression of another type in any expression slot (initialiser, assignment, "
                             "element assignment, condition, echo, return, argument, nested operand), a variable swapped for another / an undeclared one, final toggled, "
                             "declared or return type changed (incl. void), return shape flipped, a declaration repeated in the body or a nested block or moved later, "
                             "a void call used as initialiser/operand/argument/assignment/condition/return, a final variable written by statement, nested assignment, "
-                            "postfix, for-step, chained declaration or argument. Accept/reject compared with the extracted Coq checker. Class rules: 40+ violating/"
+                            "postfix, for-step, chained declaration or argument. Accept/reject compared with the extracted Coq checker. Class programs (hierarchies, overloads, statics, destructors) with one class-rule edit (field / method / constructor visibility, final, static method, "
+                            "class kind abstract/static, declared class swapped for a relative, extends dropped, parameter or return type changed): accept/reject compared with "
+                            "the extracted class-level checker (ClassTyping.v). Class rules: 40+ violating/"
                             "repaired pairs across positions (method statement, bare name, nested expression, postfix, loop header, argument, return, subclass)."})
     chk.sample({"mutation": cases[0][1], "program": srcs[0], "reference_checker": verdicts[0]})
